@@ -45,6 +45,7 @@ OBLIGATIONS = {
     "log_mode": "a zero-free model was decoded with logarithmic tables",
     "greedy_fails": "the optimum does not start with the best first-epoch state (a greedy decoder would be wrong)",
     "epoch_dependent_transitions": "the transition tables of two epochs differ",
+    "four_candidates": "an epoch with >= 4 candidate states",
     "every_verbose_mode": "a model decoded once with each reporting mode (none, all, progress bar, progress by epoch, default)",
     "likelihood_above_one": "an unnormalised model with a likelihood > 1 (negative cost) on its optimal sequence",
     "worse_prefix_wins": "every optimal sequence reaches some epoch k+1 from a state m of epoch k although a state listed "
@@ -80,7 +81,12 @@ def _spaces(tier, variant):
             if T <= 2 or sizes != (2, 2, 2):
                 sp.append((sizes, "three"))
                 sp.append((sizes, "around-one"))
+    # epochs with four and five candidates (a vectorised path may only be taken from some width on): two-valued tables
+    for sizes in ((4, 1), (1, 4), (4, 2), (1, 4, 1), (5, 1)):
+        sp.append((sizes, "nonzero"))
     if tier == "thorough":
+        for sizes in ((2, 4, 1), (1, 4, 2), (1, 5, 1)):
+            sp.append((sizes, "nonzero"))
         sp.append(((2, 2, 2), "three"))
         sp.append(((2, 2, 2), "around-one"))
         for sizes in itertools.product((1, 2), repeat=4):
@@ -250,6 +256,8 @@ def check_model(variant, sizes, flat, ctx):
             return False
         if all(pruned(sq) for sq in opt) and len(set(liks)) >= 2:
             ctx.oblige("worse_prefix_wins")
+    if max(sizes) >= 4:
+        ctx.oblige("four_candidates")
     if len(set(sizes)) > 1:
         ctx.oblige("unequal_candidate_counts")
     if T >= 3 and sizes[0] == sizes[1] == sizes[2] and Q[0] != Q[1]:
@@ -274,8 +282,8 @@ def check_model(variant, sizes, flat, ctx):
     if all(v > 0 for v in flat):
         ctx.oblige("log_mode")
         _decode_and_judge("estimate-log", variant, sizes, P, Q, True, best, case, ctx)
-    # ---- every other reporting mode of the decoder, each on a fresh model and track (models of <= 2 epochs: complete) ----
-    if T <= 2:
+    # ---- every other reporting mode of the decoder, each on a fresh model and track (models of <= 2 epochs and <= 2 candidates) ----
+    if T <= 2 and max(sizes) <= 2:
         for vb in ("all", "progress", "progress-by-epoch", "default"):
             _decode_and_judge("estimate/verbose-" + vb, variant, sizes, P, Q, False, best, case, ctx, vb)
         ctx.oblige("every_verbose_mode")
